@@ -34,7 +34,7 @@ def run_chain(w, blocks, coin, verify, ck_label, r0=None):
         r0.shuffle(order)
     offs = {}
     for h in order:
-        offs[h] = (h % nfiles, d.place(h % nfiles, blocks[h]['raw']))
+        offs[h] = (h % nfiles, d.place(h % nfiles, blocks[h]['raw'], size=blocks[h].get('size')))     # (a stored length prefix may be untruthful)
     for h, b in enumerate(blocks):
         d.record(b['hdr'], h, datadir.ACTIVE, len(b['txs']), offs[h][0], offs[h][1])
     d.core_extras()
@@ -188,6 +188,20 @@ def main(ck, tier, w, pid='C01'):
             if r.rc != 0 or bad:
                 ck.violation('%s chain indexed at heights %d..%d: exit %d, differing from the reference: %s' % (coin, h - 1, h + 1, r.rc, bad),
                              {'coin': coin, 'heights': [h - 1, h, h + 1], 'observed': r.brief(), 'tags': []})
+        # totals beyond 32 bits: a full dump of a real chain writes billions of rows; the counters are started there (hook) and must
+        # end at start + rows written, in both build profiles
+        pb = chains.std_chain(4, 'bitcoin')
+        pdir = datadir.simple_dir(w.sub('dd'), pb, 'bitcoin').write()
+        _, ptot = ref.csv_expected(list(enumerate(pb)), 'bitcoin')
+        for preset in (2 ** 32 - 2, 2 ** 32, 2 ** 40 + 7, 2 ** 63):
+            for rel in (False, True):
+                r = run.run_parser(pdir, 'csvdump', dump=w.mk('out'), env={'RBP_VERIF_PRESET_COUNT': str(preset)}, release=rel)
+                want = tuple(preset + x for x in ptot)
+                ck.evals()
+                ck.distinct(('preset', preset, rel))
+                if r.rc != 0 or summary_totals(r.stdout) != want:
+                    ck.violation('csvdump whose row counters start at %d (%s build): exit %d, printed totals %s, rows written so far %s' % (
+                        preset, 'release' if rel else 'debug', r.rc, summary_totals(r.stdout), want), {'preset': preset, 'observed': r.brief(), 'tags': []})
         # counts and sizes beyond 16 bits: 66 000 transactions in a block, 65 600 inputs / outputs / witness items, 66 000-byte scripts
         from lib import extremes
         for coin in (['bitcoin', 'litecoin'] if quick else list(btc.COINS)):
@@ -277,6 +291,10 @@ def aux_extras(ck, w, seed, quick):
                    'b2': [1, 300, 0, 33, 2, 32][h] if i % 2 == 0 else r0.choice([0, 1, 2, 32, 33])} if has else {'cb': [], 'b1': -1, 'b2': -1}
             rec = {'coin': coin, 'block': {'ver': vcls, 'aux': aux, 'txs': [{'seg': k % 2 == 1, 'ins': ['s'], 'outs': ['s', 's'], 'wit': [['s']]} for k in range(r0.randrange(1, 4))]}}
             b = wirerep.mk_block(rec, r0, prev=prev, t=r0.randrange(1, 2 ** 32), sizes=wirerep.CHAIN_SIZES[(i + h) % 3])
+            if i % 2 == 0 and h % 2 == 1:
+                # grossly understated / overstated length prefixes: the prefix is reported, the block is decoded structurally -
+                # with or without an AuxPoW section, however long its branches
+                b['size'] = [100, 81, 5000000, 33][h // 2 % 4]
             blocks.append(b)
             prev = b['hash']
         probs, r = run_chain(w, blocks, coin, True, 'C12', r0)
